@@ -12,11 +12,11 @@ import (
 
 func init() {
 	register("C16",
-		"a bare name is looked up in the builtin table first and is otherwise the data-map entry of that name (with a nil error in both cases); `this` is the data map; the member reader returns (null, nil) on a null base before any reflection, reads maps with MapIndex and structs with FieldByName by the same key, and its result passes the nil normaliser; `x!.k` raises its error exactly on `IsNull(base) && Assert` before reading; the null test is true exactly for nil and nil pointers (truth table over reflect kinds); every value leaving the node dispatcher passes the normaliser, which maps Go int, int32, int64, float32, float64 to fresh numbers and returns every other value itself.",
+		"a bare name is looked up in the builtin table first and is otherwise the data-map entry of that name (with a nil error in both cases); `this` is the data map; the member reader returns (null, nil) on a null base before any reflection, reads maps with MapIndex and structs with FieldByName by the same key, and its result passes the nil normaliser; `x!.k` raises its error exactly on `IsNull(base) && Assert` before reading; the null test is true exactly for nil and nil pointers (truth table over reflect kinds); every value leaving the node dispatcher passes the normaliser, which maps Go int, int32, int64, float32, float64 to fresh numbers and returns every other value itself. A struct field that exists is read even when it holds its zero value.",
 		"reflection value semantics (e.g. how a present-but-zero entry of a typed map is distinguished from a missing one).",
 		runC16)
 	register("C20",
-		"which functions may touch the runner's two fields: the auxiliary store is accessed only by the constructor (which creates it), Set and Get; the data map field is stored only by SetThis (the caller's map itself) and by the entry setter, which creates a map when there is none and then stores exactly (key, value); it is read only by the identifier handler, the `this` literal and the entry setter; nothing flows between the two stores.",
+		"which functions may touch the runner's two fields: the auxiliary store is accessed only by the constructor (which creates it), Set and Get; the data map field is stored only by SetThis (the caller's map itself) and by the entry setter, which creates a map when there is none and then stores exactly (key, value); it is read only by the identifier handler, the `this` literal and the entry setter; nothing flows between the two stores. A `$` assignment stores its value through the entry setter on every path, null included.",
 		"agreement with the reference model over operation histories (replaying sequences is dynamic and is not attempted).",
 		runC20)
 }
